@@ -15,6 +15,30 @@ CLAIMS = {
        "numba compiles the verified Python source faithfully (cross-checked on every stand-in input against .py_func).",
   technique="contract-based deductive verification (sidecar contracts + loop invariants, AST->VC generator, z3/cvc5); bounded stand-ins for 3 functions",
   design_ref="DESIGN.md section 6, C17"),
+ "C07": dict(
+  category="proof",
+  text="Contract-based deductive proof over the real source that split_array and Chunk.split obey the laws of chunking for every "
+       "sorted interval array and every split time (rows concatenate to the original, every row wholly on one side, CannotSplit "
+       "exactly when a row straddles and early split is not allowed, an early split goes to the latest admissible time, both halves "
+       "adjacent and carrying the metadata), that the Chunk constructor enforces its range/dtype/type clauses, and that diff is the gap to "
+       "the running maximum end. concatenate / merge / Rechunker are not yet under contract (see level_note).",
+  note="Not covered by this check yet: Chunk.concatenate, Chunk.merge, Rechunker.receive/flush/get_splits, sub/superrun bookkeeping "
+       "(abstracted; ValueError from it is allowed). Trusted: pyvc, z3/cvc5, library models (slicing, min/max, ndarray.max, copy), "
+       "integers mathematical, numba faithful to the Python source (cross-checked on each stand-in input).",
+  technique="contract-based deductive verification (sidecar contracts, loop invariants, AST->VC generator, z3/cvc5)",
+  design_ref="DESIGN.md section 6, C07"),
+ "C12": dict(
+  category="proof",
+  text="Contract-based deductive proof over the real source that outputs violating a plugin's declared contract are rejected by the "
+       "functions that guard them: the Chunk constructor (non-integer bounds, non-array data, dtype mismatch, rows outside the range for "
+       "the window it inspects), Plugin._check_dtype, Plugin._fix_output (bare array of wrong dtype, chunk labelled with another data "
+       "type, non-dict from a multi-output plugin, bare result without a time range), Plugin.chunk, and continuity_check (gaps/overlaps "
+       "raise at the offending chunk and nothing is yielded after it).",
+  note="Function-level only: that the exception reaches the user through both processors and that nothing is left in storage as valid "
+       "is not part of this proof (C06/C04). DownChunkingPlugin._fix_output is not yet under contract. dtypes / names are opaque values with "
+       "uninterpreted pure functions; f-string texts are dropped.",
+  technique="contract-based deductive verification (sidecar contracts, ghost input/output traces for the generator, z3/cvc5)",
+  design_ref="DESIGN.md section 6, C12"),
 }
 
 NA_REASON = "check not built yet (see DESIGN.md section 6 for the plan)"
